@@ -113,6 +113,13 @@ struct World {
 	bool               reuse = false;       // freed blocks are reused immediately (same size) if true
 	u32                serial = 0;
 
+	// global heap (replaced operator new/delete in main.cpp): with heap_route set (backends over std::allocator) allocations made
+	// while a library operation executes are served from arena 0 and are ledger blocks like any other; otherwise they are only counted
+	bool heap_route = false;
+	int  harness_depth = 0;      // > 0 while harness code runs inside an operation scope (its own strings must not reach the ledger)
+	int  force_route = 0;        // > 0 while the harness itself builds a library object whose storage the library will later own
+	int  heap_allocs_in_op = 0;  // calls of the global operator new made by the library inside the current operation (heap_route off)
+
 	// faults
 	bool in_op = false;
 	int  armed_kind = F_NONE, armed_k = -1;
@@ -199,6 +206,7 @@ struct World {
 	void begin_op() {
 		for(auto& c : fcnt) c = 0;
 		for(auto& e : ev) e = 0;
+		heap_allocs_in_op = 0;
 		in_op = true;
 	}
 	void end_op() { in_op = false; }
@@ -263,7 +271,15 @@ struct World {
 	}
 
 	// ---- allocation
+	struct HGuard {  // harness code inside an operation scope
+		HGuard() { ++depth(); }
+		~HGuard() { --depth(); }
+		HGuard(HGuard const&) = delete;
+		auto operator=(HGuard const&) -> HGuard& = delete;
+		static int& depth();
+	};
 	void* allocate(int arena, std::size_t n, std::size_t esz, bool harness = false) {
+		HGuard hg;
 		if(!harness) {
 			event(E_ALLOC);
 			if(hit(F_ALLOC)) throw std::bad_alloc{};
@@ -314,6 +330,7 @@ struct World {
 
 	// returns false (and records a violation) if the call is not a legal release
 	bool deallocate(int arena_of_allocator, void const* p, std::size_t n, std::size_t esz, bool harness = false) {
+		HGuard hg;
 		if(!harness) event(E_DEALLOC);
 		int const id = find_block(p);
 		if(id < 0) {
@@ -375,6 +392,8 @@ struct World {
 };
 
 inline World W;
+inline int& World::HGuard::depth() { return W.harness_depth; }
+using HGuard = World::HGuard;
 
 // ---------------------------------------------------------------- probes
 enum Probe : int {
